@@ -8,8 +8,13 @@ CMT = {1: "! plain comment", 2: "! it's", 3: "! say \"hi\"", 4: "! a ! b", 5: "!
 CPP = {1: ["#ifdef FOO"], 2: ["#ifndef FOO"], 3: ["#if defined(A) && B > 2"], 4: ["#elif X"], 5: ["#else"], 6: ["#endif"],
        7: ['#include "file.h"'], 8: ["#define FOO(a) a + 1"], 9: ["#undef FOO"], 10: ['#line 10 "f.f90"'],
        11: ["#error bad thing"], 12: ["#define BAR \\", "   1 + 2"], 13: ["#if defined(A) && \\", "    defined(B)"],
-       14: ["#warning careful"], 15: ["#"], 16: ['# 12 "g.f90"'], 17: ["#  endif"], 18: ["#include <sys.h>"]}
-GARB = {1: ["@@", "x", "y"], 2: ["1", "=", "=", "2"], 3: ["then", "end", "do"], 4: ["@@", "x", "y  ! a trailing comment"], 5: ["then", "end", "do ! it's"]}
+       14: ["#warning careful"], 15: ["#"], 16: ['# 12 "g.f90"'], 17: ["#  endif"], 18: ["#include <sys.h>"],
+       # text after the directive, blanks after the '#'
+       19: ["#endif /* FOO */"], 20: ["#else // not FOO"], 21: ["#  ifdef FOO"], 22: ["# define GUARD 1"], 23: ["#endif FOO"],
+       24: ['#   include "decl.h"'], 25: ["#define EMPTY"], 26: ["#if 0"], 27: ["#elif defined(X) /* c */"]}
+GARB = {1: ["@@", "x", "y"], 2: ["1", "=", "=", "2"], 3: ["then", "end", "do"], 4: ["@@", "x", "y  ! a trailing comment"], 5: ["then", "end", "do ! it's"],
+        # statements cut short: an assignment without its right-hand side, a call without a name
+        6: ["total", "(", "1 ) ="], 7: ["call", "(", "x )"]}
 
 
 def cpp_norm(text):
@@ -54,6 +59,16 @@ def split_in_string(s):
     return head, tail
 
 
+def split_after_string(s):
+    """Split a statement at the token boundary after its first long character literal (before it when the literal is the last token)."""
+    lab = ("%d " % s["label"]) if s["label"] else ""
+    cn = (s["cname"] + ": ") if s["cname"] else ""
+    toks = layout_tokens(s["text"])
+    i = long_string_index(toks)
+    k = i + 1 if i + 1 < len(toks) else i
+    return lab + cn + join_tokens(toks[:k]), join_tokens(toks[k:])
+
+
 def layout_tokens(text):
     """Tokens of a statement as (text, blank_before) keeping the original spacing, with `(/` and `/)` merged."""
     out = []
@@ -83,6 +98,7 @@ def layout(out, ed):
     trail = {}
     cont = {}
     strcont = {}
+    aftstr = {}
     garb = None
     sent = {}
     incs = []
@@ -104,6 +120,8 @@ def layout(out, ed):
                 trail[e["pos"]] = (j, CMT[e["b"]])
             elif e["a"] == 3:
                 cont[e["pos"]] = (j, CMT[e["b"]])
+            elif e["a"] == 5:
+                aftstr[e["pos"]] = (j, CMT[e["b"]])
             else:
                 strcont[e["pos"]] = (j, CMT[e["b"]])
         elif t == "cpp":
@@ -137,6 +155,11 @@ def layout(out, ed):
             phys.append((i, ind + sp[0] + " &"))
             phys.append((i, ind + "  " + cont[i][1]))
             phys.append((i, ind + "    " + sp[1]))
+        elif i in aftstr:
+            # continued directly after the first character literal, with a trailing comment on that line
+            head, tail = split_after_string(s)
+            phys.append((i, ind + head + " &  " + aftstr[i][1]))
+            phys.append((i, ind + "    " + tail))
         elif i in strcont:
             # the comment line sits between the two halves of a continued character literal (F2008 3.3.2.4)
             head, tail = split_in_string(s)
@@ -221,11 +244,12 @@ def recase(line, style):
 
 
 def split_at(s, where):
-    """Split a statement line at a token boundary about where/4 of the way through."""
+    """Split a statement line at a token boundary about where/8 of the way through (every boundary of a statement of up to
+    eight tokens is reached by where = 1..7)."""
     lab = ("%d " % s["label"]) if s["label"] else ""
     cn = (s["cname"] + ": ") if s["cname"] else ""
     toks = layout_tokens(s["text"])
-    k = max(1, min(len(toks) - 1, (len(toks) * where) // 4))
+    k = max(1, min(len(toks) - 1, (len(toks) * where + 7) // 8))
     return lab + cn + join_tokens(toks[:k]), join_tokens(toks[k:])
 
 
@@ -252,15 +276,37 @@ def expected_leaves(beh, stmts):
     return exp
 
 
-def split_includes(phys_by_stmt, stmts, incs, base="inc"):
+INC_STYLES = 6
+
+
+def inc_name(k, style=0, base="inc"):
+    """(file name, INCLUDE line text, text fparser prints for the unresolved line) of the k-th include file.
+    Styles: plain, double quotes, a name holding the other quote character, a sub-directory, blanks, dots and dashes."""
+    n = "%s%d.inc" % (base, k)
+    if style == 1:
+        return n, 'include "%s"' % n, "INCLUDE '%s'" % n
+    if style == 2:
+        n = "o'%s" % n
+        return n, 'include "%s"' % n, None          # printed form of the unresolved line is not claimed for this name
+    if style == 3:
+        n = "sub/%s" % n
+    elif style == 4:
+        n = "my %s" % n
+    elif style == 5:
+        n = "%s-%d.v2.INC" % (base, k)
+    return n, "include '%s'" % n, "INCLUDE '%s'" % n
+
+
+def split_includes(phys_by_stmt, stmts, incs, base="inc", style=0):
     """Move statement ranges into include files.  phys_by_stmt: list of physical lines per statement (1-based idx).
     Returns (main_lines, files{name: text})."""
     files = {}
     # sort: outer ranges first
     incs = sorted(incs, key=lambda ab: (ab[0], -ab[1]))
     names = {}
+    lines_of = {}
     for k, (a, b) in enumerate(incs):
-        names[(a, b)] = "%s%d.inc" % (base, k + 1)
+        names[(a, b)], lines_of[(a, b)], _ = inc_name(k + 1, style, base)
 
     def emit(lo, hi, ranges, indent):
         lines = []
@@ -270,7 +316,7 @@ def split_includes(phys_by_stmt, stmts, incs, base="inc"):
             if r is not None:
                 inner = [ab for ab in ranges if ab != r and r[0] <= ab[0] and ab[1] <= r[1]]
                 files[names[r]] = "\n".join("  " + l for l in emit(r[0], r[1], inner, indent)) + "\n"
-                lines.append("  include '%s'" % names[r])
+                lines.append("  " + lines_of[r])
                 i = r[1] + 1
             else:
                 lines.extend(phys_by_stmt[i])
